@@ -671,6 +671,28 @@ def validator_config():
     }
 
 
+def cache_and_signature_flags():
+    """(cache_tracks_assignments, outer_signature):
+       Schema.validate() does more than test `self._is_valid is None` before trusting the cached verdict (fix C13-HH1);
+       `_validate_resolver_arguments` inspects the callable itself, `signature(resolver, follow_wrapped=False)` (fix C13-HH2)."""
+    fn = py2lean.find_function(SCHEMA.read_text(), "validate", cls="Schema")
+    ifs = [n for n in ast.walk(fn) if isinstance(n, ast.If)]
+    if not ifs:
+        raise py2lean.Untranslatable("Schema.validate has no test of the cached verdict")
+    t = ifs[0].test
+    legacy = (isinstance(t, ast.Compare) and isinstance(t.left, ast.Attribute) and t.left.attr == "_is_valid"
+              and len(t.ops) == 1 and isinstance(t.ops[0], ast.Is) and isinstance(t.comparators[0], ast.Constant)
+              and t.comparators[0].value is None)
+    vra = _method("_validate_resolver_arguments")
+    outer = None
+    for n in ast.walk(vra):
+        if isinstance(n, ast.Call) and getattr(n.func, "id", "") == "signature":
+            outer = any(k.arg == "follow_wrapped" and isinstance(k.value, ast.Constant) and k.value.value is False for k in n.keywords)
+    if outer is None:
+        raise py2lean.Untranslatable("call of inspect.signature not found in _validate_resolver_arguments")
+    return (not legacy), outer
+
+
 def lean_str(s):
     return '"' + s.replace("\\", "\\\\").replace('"', '\\"').replace("\n", "\\n") + '"'
 
@@ -744,6 +766,10 @@ def _extract_tables(ctx=None):
            "/-- shape of `SchemaValidator` (see `validator_config` in harness/corr/C13_extract.py) -/"] + [
            "def cfg%s : Bool := %s" % ("".join(w.capitalize() for w in k.split("_")), "true" if v else "false")
            for k, v in validator_config().items()] + [
+           "/-- `Schema.validate()` only trusts the cached verdict for the resolver callables it was computed with (fix C13-HH1) -/",
+           "def cfgCacheTracksAssignments : Bool := %s" % ("true" if cache_and_signature_flags()[0] else "false"),
+           "/-- the resolver-signature rule inspects the callable itself, not what it `functools.wraps` (fix C13-HH2) -/",
+           "def cfgOuterSignature : Bool := %s" % ("true" if cache_and_signature_flags()[1] else "false"),
            "", "/-- the proposed fix C13-S4-S6 is present in the working tree -/",
            "def fixS4S6 : Bool := %s" % ("true" if fix_applied() else "false"),
            "end PyGql.Generated.SchemaValidTables", ""]
